@@ -9,6 +9,7 @@ import (
 	"sort"
 	"strings"
 	"testing"
+	"time"
 
 	kit "github.com/openbao/openbao/sdk/v2/helper/verifkit"
 	"github.com/openbao/openbao/sdk/v2/logical"
@@ -31,7 +32,7 @@ func TestVerif_C12_Cubbyhole(t *testing.T) {
 		}
 		rng := kit.NewRand(seed, 0x12200+uint64(ti))
 		c12CubbyCase(t, r, rng, caseID, (ti+ti/8)%2 == 0)
-		if r.NViolations() > 30 {
+		if c12Generic(r) > 30 {
 			break
 		}
 	}
@@ -44,6 +45,11 @@ func TestVerif_C12_Cubbyhole(t *testing.T) {
 	r.Require("cubbyhole_phys_ops_checked", 19000)
 	r.Require("tokens_with_chosen_id", 4)
 	r.Require("reads_after_other_token_revoked", 3500)
+	r.Require("chosen_ids_issued_again", 6)
+	r.Require("revocations_stopped_by_a_storage_fault_with_cubbyhole_data_left", 4)
+	r.Require("reissue_attempts_while_earlier_holder_not_fully_revoked", 4)
+	r.Require("reissued_after_complete_revocation", 2)
+	r.Require("reads_by_later_holder_or_bystander_of_earlier_holders_cells", 100)
 }
 
 type c12Cell struct {
@@ -136,6 +142,7 @@ func c12CubbyCase(t *testing.T, r *kit.Result, rng *kit.Rand, caseID string, tra
 		}
 	}
 	s.readAll("all-alive")
+	s.reissue()
 	// revoke a few tokens (with their children) and look again
 	revoked := 0
 	for _, tok := range w.toks {
@@ -303,7 +310,7 @@ func (s *c12CubbyRun) readAll(phase string) {
 				s.r.Count("segment_probe_reads", 1)
 			}
 		}
-		if s.failed && s.r.NViolations() > 25 {
+		if s.failed && c12Generic(s.r) > 25 {
 			return
 		}
 	}
@@ -322,4 +329,279 @@ func c12NameFromCell(name string) bool {
 
 func c12Role(t *c12Tok) string {
 	return strings.SplitN(t.Name, "@", 2)[0]
+}
+
+// ---------------------------------------------------------------- re-issued token ids
+
+// issueID creates a token with a caller-chosen id (root namespace, root caller).
+func (s *c12CubbyRun) issueID(id, name string) *c12Tok {
+	resp, err := s.v.Do(vReq{Op: logical.UpdateOperation, Path: "auth/token/create", Token: s.v.Root, Data: map[string]any{"id": id, "policies": []string{"c12-all"}, "ttl": "1h", "no_default_policy": true}})
+	if !vOK(resp, err) || resp == nil || resp.Auth == nil {
+		s.step("issuing id %q (%s) refused: %s", id, name, c12Short(vErrStr(resp, err)))
+		return nil
+	}
+	t := &c12Tok{Name: name + "@", ID: resp.Auth.ClientToken, Accessor: resp.Auth.Accessor, NS: s.root, Kind: "all", Patterns: []string{"*"}}
+	s.toks = append(s.toks, t)
+	s.step("issued id %q as %s (accessor %s)", id, t.Name, t.Accessor)
+	return t
+}
+
+// segmentsOf: physical cubbyhole sub-trees created by the token's writes.
+func (s *c12CubbyRun) segmentsOf(t *c12Tok) []string {
+	var out []string
+	for k, o := range s.segs {
+		if o == t {
+			ps := strings.SplitN(k, "|", 2)
+			out = append(out, ps[0]+ps[1]+"/")
+		}
+	}
+	sort.Strings(out)
+	return out
+}
+
+// releaseSegments: a segment whose keys are all gone from the physical store no
+// longer belongs to the token that created it (its revocation cleared it).
+func (s *c12CubbyRun) releaseSegments(t *c12Tok) (left int) {
+	for k, o := range s.segs {
+		if o != t {
+			continue
+		}
+		ps := strings.SplitN(k, "|", 2)
+		if n := len(s.v.Probe.Keys(ps[0] + ps[1] + "/")); n == 0 {
+			delete(s.segs, k)
+		} else {
+			left += n
+		}
+	}
+	return left
+}
+
+// readCellsOf: readers look at every cell the earlier token wrote.
+func (s *c12CubbyRun) readCellsOf(first *c12Tok, readers []*c12Tok, phase string, ownCleared bool) {
+	for _, reader := range readers {
+		if reader == nil || reader == first {
+			continue
+		}
+		for _, cell := range s.cells {
+			if cell.Tok != first || cell.NS.effSealed() || !cell.NS.under(reader.NS) {
+				continue
+			}
+			if reader.ID == first.ID && ownCleared && cell.NS != first.NS {
+				s.leftoverInChildNamespace(first, reader, cell, phase)
+				continue
+			}
+			for _, p := range c12CubbyPaths {
+				q := &c12Req{Kind: "cubby-reissue-read:" + phase, Op: logical.ReadOperation, Tok: reader, N: cell.NS, M: s.cubby[cell.NS]}
+				s.pickForm(q, cell.NS, "cubbyhole/"+p)
+				s.do(q)
+				s.r.Eval(1)
+				s.checkPhys(q, false)
+				s.scanResponse(q, true)
+				s.r.Count("reads_by_later_holder_or_bystander_of_earlier_holders_cells", 1)
+				s.r.Nontrivial(fmt.Sprintf("reissue-read|%s|%s|%d|%v", phase, c12Role(reader), cell.NS.Depth, reader.ID == first.ID))
+			}
+			for _, lp := range []string{"cubbyhole/", "cubbyhole/dir/"} {
+				q := &c12Req{Kind: "cubby-reissue-list:" + phase, Op: logical.ListOperation, Tok: reader, N: cell.NS, M: s.cubby[cell.NS]}
+				s.pickForm(q, cell.NS, lp)
+				s.do(q)
+				s.r.Eval(1)
+				s.checkPhys(q, false)
+				s.scanResponse(q, true)
+				if q.ok() && q.resp != nil && reader.ID == first.ID {
+					if names, _ := q.resp.Data["keys"].([]string); len(names) > 0 {
+						s.violate("C12-cubbyhole-foreign-name-listed", fmt.Sprintf("token %s (a later holder of the id of %s, which never wrote anything) listed %q in namespace %q and got %v", reader.Name, first.Name, lp, cell.NS.Path, names), map[string]any{"request": q})
+					}
+				}
+			}
+		}
+	}
+}
+
+// reissue: a token id chosen by the caller can be issued again. Whoever holds
+// the id later is a different token and must not reach what an earlier holder
+// stored, whatever state the earlier holder's revocation is in: complete,
+// stopped by a storage fault (while clearing the cubbyhole, while listing it,
+// at the n-th write of the revocation), still to be retried.
+func (s *c12CubbyRun) reissue() {
+	base := "c12re" + s.rng.Canary()[4:12]
+	nss := []*c12NS{s.root}
+	for _, n := range s.nss {
+		if n != s.root && !n.effSealed() && len(nss) < 3 {
+			nss = append(nss, n)
+		}
+	}
+	scenarios := []string{"complete", "fault-delete", "fault-list", "fault-nth-write", "fault-delete", "complete", "fault-nth-write", "fault-list"}
+	total := kit.N(8, 12)
+	for i := 0; i < total; i++ {
+		sc := scenarios[i%len(scenarios)]
+		id := fmt.Sprintf("%s-%d", base, i)
+		if i%3 == 2 {
+			id = fmt.Sprintf("s.%s%d", base, i) // looks like a generated service token id
+		}
+		first := s.issueID(id, fmt.Sprintf("id%d-holder1", i))
+		if first == nil {
+			s.r.Count("chosen_id_refused_at_first_issue", 1)
+			continue
+		}
+		for _, n := range nss {
+			cell := &c12Cell{Tok: first, NS: n, Val: map[string]string{}}
+			for _, p := range c12CubbyPaths {
+				c := s.rng.Canary()
+				q := &c12Req{Kind: "cubby-write", Op: logical.UpdateOperation, Tok: first, N: n, M: s.cubby[n], Data: map[string]any{"v": c}}
+				s.pickForm(q, n, "cubbyhole/"+p)
+				s.do(q)
+				s.checkPhys(q, true)
+				if !q.ok() {
+					s.t.Fatalf("verif: token %s cannot write its cubbyhole in %q: %s", first.Name, n.Path, q.outcome())
+				}
+				s.canary[c] = c12Owner{Mount: s.cubby[n], Tok: first, NS: n}
+				cell.Val[p] = c
+			}
+			s.cells = append(s.cells, cell)
+			s.r.Count("cubbyhole_cells_written", 1)
+		}
+		segs := s.segmentsOf(first)
+		under := func(k string) bool {
+			for _, sg := range segs {
+				if strings.HasPrefix(k, sg) {
+					return true
+				}
+			}
+			return false
+		}
+		tag := fmt.Sprintf("c12rev%d", i)
+		switch sc {
+		case "fault-delete":
+			s.v.Probe.FailAll(func(e kit.Event) bool { return e.Op == "delete" && under(e.Key) })
+		case "fault-list":
+			s.v.Probe.FailAll(func(e kit.Event) bool { return (e.Op == "list" || e.Op == "listpage") && under(e.Key) })
+		case "fault-nth-write":
+			s.v.Probe.FailNth(func(e kit.Event) bool { return e.Tag == tag && (e.Op == "put" || e.Op == "delete") }, 1+s.rng.Intn(4))
+		}
+		var rq vReq
+		switch s.rng.Intn(3) {
+		case 0:
+			rq = vReq{Tag: tag, Op: logical.UpdateOperation, Path: "auth/token/revoke", Token: s.v.Root, Data: map[string]any{"token": first.ID}}
+		case 1:
+			rq = vReq{Tag: tag, Op: logical.UpdateOperation, Path: "auth/token/revoke-accessor", Token: s.v.Root, Data: map[string]any{"accessor": first.Accessor}}
+		default:
+			rq = vReq{Tag: tag, Op: logical.UpdateOperation, Path: "auth/token/revoke-self", Token: first.ID}
+		}
+		resp, err := s.v.Do(rq)
+		first.Dead = true
+		s.step("%s: revoke %s via %s -> %s", sc, first.Name, rq.Path, c12Short(vErrStr(resp, err)))
+		left := s.releaseSegments(first)
+		if left > 0 {
+			left = s.ownLeft(first) // what is left in child namespaces is judged by leftoverInChildNamespace
+		}
+		if sc != "complete" && left > 0 {
+			s.r.Count("revocations_stopped_by_a_storage_fault_with_cubbyhole_data_left", 1)
+		}
+		if sc == "complete" && left > 0 {
+			s.r.Count("complete_revocations_leaving_cubbyhole_keys", left)
+		}
+		// same id again, while whatever fault there is persists
+		bystander := s.token(s.root, fmt.Sprintf("id%d-bystander", i), "all", []string{"c12-all"}, []string{"*"}, nil)
+		second := s.issueID(id, fmt.Sprintf("id%d-holder2", i))
+		if left > 0 {
+			s.r.Count("reissue_attempts_while_earlier_holder_not_fully_revoked", 1)
+			if second != nil {
+				s.r.Count("ids_issued_again_while_earlier_holder_not_fully_revoked", 1)
+			}
+		} else if second != nil {
+			s.r.Count("reissued_after_complete_revocation", 1)
+		}
+		if second != nil {
+			s.r.Count("chosen_ids_issued_again", 1)
+		}
+		s.readCellsOf(first, []*c12Tok{second, bystander}, sc, left == 0)
+		// the fault goes away, the revocation is retried
+		if s.v.Probe.ClearFaults() > 0 {
+			s.r.Count("storage_faults_fired_in_revocations", 1)
+		}
+		if sc != "complete" && second == nil {
+			resp, err := s.v.Do(vReq{Op: logical.UpdateOperation, Path: "auth/token/revoke-accessor", Token: s.v.Root, Data: map[string]any{"accessor": first.Accessor}})
+			s.step("%s: retry revoke %s -> %s", sc, first.Name, c12Short(vErrStr(resp, err)))
+			s.v.WaitQuiet(20*time.Millisecond, 2*time.Second)
+			s.releaseSegments(first)
+			cleared := s.ownLeft(first) == 0
+			third := s.issueID(id, fmt.Sprintf("id%d-holder3", i))
+			if third != nil {
+				s.r.Count("chosen_ids_issued_again", 1)
+			}
+			s.readCellsOf(first, []*c12Tok{third, bystander}, sc+"-after-retry", cleared)
+		}
+		// later holders have been judged here; they take no part in the general read phases
+		// (anything they do in a child namespace would meet the earlier holder's leftovers again)
+		for _, t := range s.toks {
+			if strings.HasPrefix(t.Name, fmt.Sprintf("id%d-holder", i)) {
+				t.Dead = true
+			}
+		}
+		if s.failed && c12Generic(s.r) > 25 {
+			return
+		}
+	}
+}
+
+// ownLeft: physical keys left in the cubbyhole of the token's OWN namespace.
+func (s *c12CubbyRun) ownLeft(t *c12Tok) int {
+	n := 0
+	for _, sg := range s.segmentsOf(t) {
+		if strings.HasPrefix(sg, s.cubby[t.NS].Prefix) {
+			n += len(s.v.Probe.Keys(sg))
+		}
+	}
+	return n
+}
+
+// leftoverInChildNamespace judges one precise configuration separately: the
+// earlier holder of a caller-chosen id was revoked and the cubbyhole of its own
+// namespace is gone, but it had also written into the cubbyhole of a child
+// namespace; a later holder of the same id looks there.
+func (s *c12CubbyRun) leftoverInChildNamespace(first, reader *c12Tok, cell *c12Cell, phase string) {
+	hit, what := false, ""
+	var witness *c12Req
+	for _, p := range append(append([]string{}, c12CubbyPaths...), "") {
+		q := &c12Req{Kind: "cubby-reissue-child-ns:" + phase, Op: logical.ReadOperation, Tok: reader, N: cell.NS, M: s.cubby[cell.NS]}
+		if p == "" {
+			q.Op = logical.ListOperation
+		}
+		s.pickForm(q, cell.NS, "cubbyhole/"+p)
+		s.do(q)
+		s.r.Eval(1)
+		s.checkStorage(q)
+		s.r.Count("reads_by_later_holder_or_bystander_of_earlier_holders_cells", 1)
+		if !q.ok() || q.resp == nil {
+			continue
+		}
+		var ss []string
+		c12Strings(q.resp.Data, "", &ss)
+		for _, x := range ss {
+			for _, c := range c12CanaryRe.FindAllString(x, -1) {
+				o, known := s.canary[c]
+				switch {
+				case known && o.Tok == first && o.NS == cell.NS:
+					hit, what, witness = true, "read "+c, q
+				case known && o.Tok != reader:
+					s.violate("C12-cubbyhole-foreign-token-data", fmt.Sprintf("token %s read cubbyhole data %s written by token %s", reader.Name, c, o.Tok.Name), map[string]any{"request": q})
+				}
+			}
+		}
+		if names, _ := q.resp.Data["keys"].([]string); p == "" && len(names) > 0 && !hit {
+			hit, what, witness = true, fmt.Sprintf("listed %v", names), q
+		}
+	}
+	if !hit {
+		s.r.Count("later_holder_finds_nothing_in_child_namespace_cubbyhole", 1)
+		return
+	}
+	s.r.Count("later_holder_reaches_earlier_holders_child_namespace_cubbyhole", 1)
+	s.r.Nontrivial(fmt.Sprintf("reissue-child-ns|%s|%d", phase, cell.NS.Depth))
+	{
+		s.violate("C12-reissued-token-id-reads-earlier-holders-child-namespace-cubbyhole",
+			fmt.Sprintf("token %s (accessor %s) was revoked and the cubbyhole of its own namespace %q is cleared, but what it had stored in the cubbyhole of the child namespace %q is still there; token %s (accessor %s), created later with the same caller-chosen id, %s there (%s %q header %q)",
+				first.Name, first.Accessor, first.NS.Path, cell.NS.Path, reader.Name, reader.Accessor, what, witness.Op, witness.Path, witness.Header),
+			map[string]any{"request": witness, "physical_ops": c12Events(witness.events), "phase": phase})
+	}
 }
